@@ -596,14 +596,14 @@ class Lab:
                 os.unlink(f)
             except FileNotFoundError:
                 pass
-        bracket = self.bracket if bracket is None else bracket
-        before = self.snap() if bracket else None
-        self.scan_versions(before)
         # the random source: deterministic, but fresh bytes for every command of a lineage (a hash seed drawn by `rehash` differs
         # from the one drawn by the first sync); the counter travels with saved states
         self.nurand = getattr(self, "nurand", 0) + 1
         with open(self.p("etc", "urandom"), "wb") as f:
             f.write(hashlib.shake_256(b"urandom:%d:%d" % (self.seed, self.nurand)).digest(4096))
+        bracket = self.bracket if bracket is None else bracket
+        before = self.snap() if bracket else None
+        self.scan_versions(before)
         # the recorded state the command starts from (first existing copy), for transition oracles
         self.content_before = None
         self.content_before_cmd = len(self.history) + 1      # index (1-based) of the command this snapshot precedes
